@@ -7,148 +7,6 @@
 #include <sys/mman.h>
 #include <sys/wait.h>
 
-Ctx g_ctx;
-// shared with the supervising parent: the case being executed (so that a crash of the whole shard,
-// e.g. a sanitizer abort in a property that does not fork per case, still yields a replay file)
-struct Shared
-{
-  volatile uint64_t evals;
-  volatile uint32_t len;
-  char text[1 << 20];
-};
-static Shared *g_sh = nullptr;
-static void set_current(const Case &c)
-{
-  if (!g_sh)
-    return;
-  std::string t = c.text();
-  uint32_t n = (uint32_t)std::min(t.size(), sizeof(g_sh->text) - 1);
-  memcpy(g_sh->text, t.data(), n);
-  g_sh->len = n;
-  g_sh->evals++;
-}
-static std::vector<Prop> &props()
-{
-  static std::vector<Prop> v;
-  return v;
-}
-void register_prop(const Prop &p) { props().push_back(p); }
-const Prop *find_prop(const std::string &id)
-{
-  for (auto &p : props())
-    if (p.id == id)
-      return &p;
-  return nullptr;
-}
-static std::set<std::string> g_listed;
-bool finding_listed(const std::string &prop, const std::string &key) { return g_listed.count(prop + "/" + key) > 0; }
-static void load_known(const std::string &path)
-{
-  std::string t = read_file(path);
-  size_t i = 0;
-  while (i < t.size())
-  {
-    size_t e = t.find('\n', i);
-    if (e == std::string::npos)
-      e = t.size();
-    std::string line = t.substr(i, e - i);
-    i = e + 1;
-    if (line.rfind("finding:", 0) != 0)
-      continue;
-    size_t p = line.find("property="), k = line.find("key=");
-    if (p == std::string::npos || k == std::string::npos)
-      continue;
-    std::string prop = line.substr(p + 9, line.find(' ', p) - p - 9);
-    std::string key = line.substr(k + 4, line.find(' ', k) - k - 4);
-    g_listed.insert(prop + "/" + key);
-  }
-}
-
-bytes expand(uint64_t seed, size_t n, int style)
-{
-  bytes b(n);
-  Sm64 r(seed);
-  switch (style)
-  {
-  case 1: // constant fill
-  {
-    uint8_t c = (uint8_t)r.next();
-    for (auto &x : b)
-      x = c;
-    break;
-  }
-  case 2: // counter
-  {
-    uint8_t c = (uint8_t)r.next();
-    for (size_t i = 0; i < n; i++)
-      b[i] = (uint8_t)(c + i);
-    break;
-  }
-  case 3: // every 16-byte block identical
-  {
-    uint8_t blk[16];
-    for (auto &x : blk)
-      x = (uint8_t)r.next();
-    for (size_t i = 0; i < n; i++)
-      b[i] = blk[i & 15];
-    break;
-  }
-  default:
-    for (size_t i = 0; i < n; i += 8)
-    {
-      uint64_t v = r.next();
-      for (size_t j = 0; j < 8 && i + j < n; j++)
-        b[i + j] = (uint8_t)(v >> (8 * j));
-    }
-  }
-  return b;
-}
-
-std::string describe_child(const ChildResult &r) { return r.describe(); }
-
-static int g_replay_seq = 0;
-static std::string write_replay(const Ctx &ctx, const Case &c, const Verdict &v, const char *kind)
-{
-  std::string path = ctx.outdir + "/" + ctx.prop + ".shard" + std::to_string(ctx.shard) + "." + kind + ".replay";
-  std::string t = "# property=" + ctx.prop + "\n# " + v.msg.substr(0, 400) + "\n";
-  for (auto &ch : t)
-    if (ch == '\r')
-      ch = ' ';
-  // keep the comment on one line
-  std::string m = v.msg.substr(0, 400);
-  for (auto &ch : m)
-    if (ch == '\n' || ch == '\r')
-      ch = ' ';
-  t = "# property=" + ctx.prop + "\n# " + m + "\n" + (v.replay_text.empty() ? c.text() : v.replay_text);
-  write_file(path, t);
-  (void)g_replay_seq;
-  return path;
-}
-
-Verdict eval_fixed(const Prop &p, Ctx &ctx, const Case &c)
-{
-  set_current(c);
-  Verdict v = p.run(c);
-  ctx.stats.note(c, v);
-  if (v.infra)
-  {
-    fprintf(stderr, "INFRA %s: %s\n", p.id.c_str(), v.msg.c_str());
-    ctx.stats.info["infra_error"] = v.msg;
-  }
-  else if (!v.ok && v.known.empty())
-  {
-    ctx.stats.violations++;
-    if (ctx.stats.first_violation_msg.empty())
-    {
-      ctx.stats.first_violation_msg = v.msg;
-      std::string path = write_replay(ctx, c, v, "fixed");
-      printf("FAIL replay=%s msg=%s\n", path.c_str(), v.msg.substr(0, 300).c_str());
-      fflush(stdout);
-    }
-  }
-  return v;
-}
-
 static std::string arg(int argc, char **argv, const char *name, const char *def)
 {
   for (int i = 1; i + 1 < argc; i++)
@@ -179,8 +37,8 @@ int main(int argc, char **argv)
   load_known(arg(argc, argv, "--known", "/verif/KNOWN_FINDINGS.txt"));
   if (flag(argc, argv, "--list"))
   {
-    for (auto &p : props())
-      printf("%s\n", p.id.c_str());
+    for (auto &id : list_props())
+      printf("%s\n", id.c_str());
     return 0;
   }
   const Prop *p = find_prop(ctx.prop);
